@@ -60,7 +60,10 @@ this prelude, on every run. What is *assumed* about Go here (the translator's se
   section); in a map of maps the inner maps are reachable through the outer map only (`mapInner`, `mapDelIn`);
 * in a target marked `dynRW` an `http.ResponseWriter` is a `DynRW`; `case T:` of a type switch over it, `T` an interface
   of the package, asks whether its dynamic type has `T`'s methods (`dynHas`); `wrapper{v}`, a struct literal embedding
-  such an interface, is the wrapper's name and `v`; the package's `ResponseWriter` as a result is that pair or nil.
+  such an interface, is the wrapper's name and `v`; the package's `ResponseWriter` as a result is that pair or nil;
+* a function-valued struct field listed under `fieldFuncs` (a callback of the package's user) is a parameter `<name>P` of
+  the function that reads it: `none` is nil, calling nil panics, the callback is any function of its arguments (its
+  effects on them are outside); a `*T` stored in a `MessageWriter`-typed field goes through a parameter `as<T>WriterP`.
 -/
 namespace GoSSE.GoRT
 open GoSSE
